@@ -550,11 +550,27 @@ def _check_kinds(ctx: Ctx) -> None:
                     (IA, 'IASolverBaseClass._calc_SINR_k')):
         fn = M.func(path, q)
         ctx.instance('C11.c', q + ':abs')
-        st = [n for n in ast.walk(fn.node) if isinstance(n, ast.Assign) and isinstance(n.targets[0], ast.Subscript) and norm(n.targets[0].value) == 'SINR_k']
+        # the per-stream value: what is stored into the returned array at its stream index, or appended to the list the returned array
+        # is built from (`return np.array(values, dtype=float)`)
+        rets_ = [n for n in walk_no_nested(fn.node) if isinstance(n, ast.Return) and n.value is not None]
+        out_names = set()
+        for r_ in rets_:
+            v_ = r_.value
+            if isinstance(v_, ast.Call) and norm(v_.func) in ('np.array', 'np.asarray') and v_.args:
+                v_ = v_.args[0]
+            if isinstance(v_, ast.Name):
+                out_names.add(v_.id)
+        if len(out_names) != 1:
+            ctx.error('C11.c: %s does not return one array of per-stream values (cannot tell)' % q)
+        on_ = out_names.pop()
+        st = [n for n in ast.walk(fn.node) if isinstance(n, ast.Assign) and isinstance(n.targets[0], ast.Subscript) and norm(n.targets[0].value) == on_]
+        vals_ = [n.value for n in st]
+        vals_ += [n.value.args[0] for n in ast.walk(fn.node) if isinstance(n, ast.Expr) and isinstance(n.value, ast.Call)
+                  and isinstance(n.value.func, ast.Attribute) and n.value.func.attr == 'append' and norm(n.value.func.value) == on_ and n.value.args]
         loc = _locals(fn)
-        ok = len(st) == 1 and isinstance(st[0].value, ast.Call) and norm(st[0].value.func) in ('np.abs', 'abs', 'np.absolute')
+        ok = len(vals_) == 1 and isinstance(vals_[0], ast.Call) and norm(vals_[0].func) in ('np.abs', 'abs', 'np.absolute')
         if ok:
-            inner = st[0].value.args[0]
+            inner = vals_[0].args[0]
             d = loc.get(norm(inner), [inner])[0] if isinstance(inner, ast.Name) else inner
             ok = isinstance(d, ast.BinOp) and isinstance(d.op, ast.Div) and 'numerator' in norm(d.left) and 'denominator' in norm(d.right)
             num = loc.get('numerator', [None])[0]
@@ -562,7 +578,7 @@ def _check_kinds(ctx: Ctx) -> None:
             k = Kinds(fn)
             ok = ok and num is not None and k.is_gram(num)
             ok = ok and den is not None and 'Bkl_all_l[l]' in norm(den) and norm(den).count('Ukl') == 2
-        ctx.obligation('C11.c', q + ':abs', ok, {'store': norm(st[0])[:80] if st else None})
+        ctx.obligation('C11.c', q + ':abs', ok, {'per_stream_value': norm(vals_[0])[:80] if vals_ else None})
         if not ok:
             ctx.violation('C11.c', q, 'per-stream SINR is not stored as abs(|u^H H v|^2 / (u^H B u))', fn.path, fn.lineno, operand='abs')
     fn = M.func(IA, 'IASolverBaseClass.calc_sum_capacity')
